@@ -657,6 +657,33 @@ Definition wild_last_only (reqs : list bytes) : bool :=
 (* no component of a link target looks like a pattern (containsWildcards) *)
 Definition literal_path (s : bytes) : bool := forallb (fun c => negb (contains_wildcards c)) (comps s).
 Definition links_literal (view : list node) : bool := forallb literal_path (forest_links view).
+(* no pattern anywhere: neither in a request nor in a link target *)
+Definition literal_only (view : list node) (reqs : list bytes) : bool :=
+  forallb literal_path reqs && links_literal view.
+
+(* names of all entries *)
+Fixpoint node_names (n : node) {struct n} : list bytes :=
+  match n with
+  | Node name _ _ kids =>
+    name :: (fix go (l : list node) : list bytes :=
+               match l with
+               | [] => []
+               | k :: r => node_names k ++ go r
+               end) kids
+  end.
+Fixpoint forest_names (l : list node) : list bytes :=
+  match l with
+  | [] => []
+  | k :: r => node_names k ++ forest_names r
+  end.
+(* a component that looks like a pattern but, in this tree, matches exactly the entries
+   that carry its own text as name (so reading it as a pattern or literally is the same) *)
+Definition selfmatch_only (gmatch : bytes -> bytes -> bool) (view : list node) (c : bytes) : bool :=
+  forallb (fun nm => Bool.eqb (gmatch c nm) (bytes_eqb nm c)) (forest_names view).
+Definition quasi_literal (gmatch : bytes -> bytes -> bool) (view : list node) (c : bytes) : bool :=
+  negb (contains_wildcards c) || selfmatch_only gmatch view c.
+Definition links_selfmatch (gmatch : bytes -> bytes -> bool) (view : list node) : bool :=
+  forallb (fun l => forallb (quasi_literal gmatch view) (comps l)) (forest_links view).
 
 (* well-formed views: what a file system can hold (names are single non-special
    components, distinct among siblings; only directories have entries) *)
